@@ -219,9 +219,13 @@ class CentralityClasses:
         # classes
         global_event_record = sorted(self.events_multiplicity_, reverse=True)
 
-        MinRecord = int(number_events * self.centrality_bins_[0] / 100.0)
+        MinRecord = int(
+            number_events * float(self.centrality_bins_[0]) / 100.0
+        )
         for i in range(1, len(self.centrality_bins_)):
-            MaxRecord = int(number_events * self.centrality_bins_[i] / 100.0)
+            MaxRecord = int(
+                number_events * float(self.centrality_bins_[i]) / 100.0
+            )
 
             self.dNchdetaMax_.append(global_event_record[MinRecord])
             if MaxRecord > 0:
